@@ -76,4 +76,16 @@ def FieldSource (re : Regex) (pd : PD) (cm : List (String × Cred)) (e : String 
   ∃ id c d fields f, (id, c) ∈ cm ∧ d ∈ pd.descs ∧ d.id = id ∧ d.constraints = some fields ∧ f ∈ fields ∧
     f.id = some e.1 ∧ FaithfulValue re f c.tree e.2
 
+/-- the envelope carries, at the path of each descriptor-map entry, a value that decodes to (a credential with the
+    `Raw()` of) the corresponding selected credential -/
+def Carries (decode : Decoder) (envJ : J) : List Mapping → List Cred → Prop
+  | [], [] => True
+  | mp :: ms, c :: cs => (∃ c', resolveCredential decode mp envJ = .ok c' ∧ c'.raw = c.raw) ∧ Carries decode envJ ms cs
+  | _, _ => False
+
+/-- an error that the `enum` loop ignores did not hide a match (false only for an array in which an unsupported
+    element — null, object — precedes a matching string) -/
+def EnumErrorsHideNothing (cfg : Cfg) (re : Regex) (v : J) : Prop :=
+  ∀ e msg, matchCore cfg re "string" (some e) none v = .err msg → ¬ Matches re "string" (some e) none v
+
 end Nuts.C12
